@@ -84,6 +84,31 @@ Proof.
   - cbn [bind]. destruct (remove_empty_seqs l4). discriminate.
 Qed.
 
+(* unique_symbols fails only with the "non-unique symbols" panic *)
+Lemma usyms_err e : forall er, usyms e = Err er -> er = KeyErr.
+Proof.
+  induction e as [v|x|op args IH] using expr_ind2; intros er H; try discriminate.
+  cbn [usyms] in H.
+  set (own := if String.eqb op "unique_symbol" then match args with a :: _ => [sym_name a] | [] => [] end else []) in H.
+  set (skip1 := String.eqb op "deploy" && Nat.eqb (List.length args) 3) in H.
+  clearbody skip1 own.
+  assert (G: forall l, Forall (fun e => forall er, usyms e = Err er -> er = KeyErr) l -> forall i acc,
+     (fix go (l : list expr) (i : nat) (acc : list string) : res (list string) :=
+         match l with
+         | [] => Ok acc
+         | c :: t =>
+             if skip1 && Nat.eqb i 1 then go t (S i) acc else
+             s <- usyms c ;;
+             if existsb (fun x => existsb (String.eqb x) acc) s then Err KeyErr else go t (S i) (acc ++ s)%list
+         end) l i acc = Err er -> er = KeyErr).
+  { clear. induction 1 as [|c t Hc Ht IHt]; intros i acc H; [discriminate|].
+    destruct (skip1 && Nat.eqb i 1); [eapply IHt; eauto|].
+    destruct (usyms c) as [sc|e1] eqn:E; cbn [bind] in H.
+    - destruct (existsb _ sc); [inversion H; reflexivity | eapply IHt; eauto].
+    - inversion H; subst. eapply Hc; eauto. }
+  eapply G; eauto.
+Qed.
+
 Section T.
 Variable SM : Sem. (*section*)
 Hypothesis OK : SemOk SM. (*section*)
@@ -465,6 +490,8 @@ Proof.
   induction fuel as [|f IH]; intros cancun pc e W; [exact I|].
   destruct e as [v|x|op args]; try (cbn; split; [apply eqv_refl | exact W]).
   cbn [opt]. apply wf_node in W.
+  destruct (usyms (Node op args)) as [starting|er0] eqn:EU; cbn [bind].
+  2:{ rewrite (usyms_err _ _ EU). exact I. }
   pose proof (mapi_res_spec op (fun i a => opt f cancun (pc_of op i) a) args 0
                 (fun j a Wa => IH cancun (pc_of op j) a Wa) W) as MS.
   destruct (mapi_res (fun i a => opt f cancun (pc_of op i) a) 0 args) as [rs|er]; cbn [bind].
@@ -487,7 +514,10 @@ Proof.
   pose proof (top_rule_sound cancun pc op argz Wz) as TR. fold t in TR.
   destruct (top_rule cancun pc op argz) as [|c new|x|er].
   - apply FIN; [apply eqv_refl | apply (proj2 (wf_node op argz)); exact Wz].
-  - destruct TR as [Q1 Q2]. apply FIN; assumption.
+  - destruct TR as [Q1 Q2].
+    match goal with |- spec _ _ (if ?c then _ else _) => destruct c end; [|apply FIN; assumption].
+    destruct (usyms new) as [now|er1] eqn:EN; cbn [bind]; [|rewrite (usyms_err _ _ EN); exact I].
+    destruct (same_set starting now); [apply FIN; assumption | exact I].
   - destruct TR as [Q1 Q2]. apply REC; [|exact Q2]. eapply eqv_trans; [apply eqval_eqv; exact B | exact Q1].
   - destruct er; try exact I. destruct TR as [AH (c & EA & O)]. cbn.
     apply (Blame_equiv t _ (Node op argz)); [apply eqval_eqv; exact B|].
